@@ -125,7 +125,7 @@ def run_impl(maxsize: int, events: list) -> list[str]:
             elif ev[0] == 'cancel':
                 outs.append(rig.cancel())
             elif ev[0] == 'chunkcancel':
-                outs.append(rig.feed_racing_cancel(bytes.fromhex(ev[1])))
+                outs.append(rig.feed_racing_cancel(bytes.fromhex(ev[1]), int(ev[2]) if len(ev) > 2 else 0))
             elif ev[0] == 'setmax':
                 outs.append(rig.setmax(ev[1]))
     finally:
@@ -200,12 +200,12 @@ def run(ctx: Ctx) -> None:
         if rng.random() < 0.33 and len(events) > 1:
             for _ in range(rng.randrange(1, 3)):
                 events.insert(rng.randrange(1, len(events) + 1), ['cancel'])
-        if rng.random() < 0.25:
+        if rng.random() < 0.4:
             # timeouts coinciding with the arrival of data
             for _ in range(rng.randrange(1, 4)):
                 k = rng.randrange(len(events))
                 if events[k][0] == 'chunk':
-                    events[k] = ['chunkcancel', events[k][1]]
+                    events[k] = ['chunkcancel', events[k][1], rng.choice([0, 0, 1, 2, 3, 4, 6])]
         cases.append((maxsize, events, fault))
     if ctx.driver_ok:
         check_types(ctx)
